@@ -34,10 +34,19 @@ class StackEval:
                 if r[0] == "class":
                     return ("cls", r[1])
                 if r[0] == "assign":
-                    return self.ev(r[2], {}, depth + 1)
+                    v = self.ev(r[2], {}, depth + 1)
+                    if v[0] == "list":
+                        return ("list", v[1], e.id)      # the module-level list object itself (shared, mutable)
+                    return v
             return ("unk", e.id)
         if isinstance(e, ast.Tuple):
             return ("tuple", [self.ev(x, env, depth) for x in e.elts])
+        if isinstance(e, ast.List):
+            return ("list", [self.ev(x, env, depth) for x in e.elts], None)
+        if isinstance(e, ast.Call) and isinstance(e.func, ast.Name) and e.func.id in ("tuple", "list") and len(e.args) == 1:
+            a = self.ev(e.args[0], env, depth)
+            if a[0] in ("tuple", "list"):
+                return ("tuple", list(a[1])) if e.func.id == "tuple" else ("list", list(a[1]), None)
         if isinstance(e, ast.BinOp) and isinstance(e.op, ast.Add):
             l, r = self.ev(e.left, env, depth), self.ev(e.right, env, depth)
             if l[0] == "tuple" and r[0] == "tuple":
@@ -130,6 +139,13 @@ class StackEval:
                     env[s.target.id] = l if l[0] == "err" else r
                 elif l[0] == "tuple" and r[0] == "tuple":
                     env[s.target.id] = ("tuple", l[1] + r[1])
+                elif l[0] == "list" and r[0] in ("tuple", "list"):
+                    if l[2] is not None:
+                        msg = "`%s += ...` extends the module-level list %s in place: the optional modules of this call stay in it for every later call (modules that were switched off are present, selected ones are duplicated)" % (s.target.id, l[2])
+                        self.errors.append((s, msg))
+                        env[s.target.id] = ("err", msg)
+                    else:
+                        env[s.target.id] = ("list", l[1] + r[1], None)
                 else:
                     env[s.target.id] = ("unk", unparse(s))
             elif isinstance(s, ast.If):
@@ -190,3 +206,62 @@ def show(v):
     if v[0] == "inst":
         return v[1].name + "(...)"
     return "%s:%s" % (v[0], v[1])
+
+
+class StackError(ValueError):
+    """the default stack cannot be evaluated; .problems lists (stmt, message) pairs found by the evaluation"""
+    def __init__(self, msg, problems=()):
+        ValueError.__init__(self, msg)
+        self.problems = list(problems)
+
+
+PUBLISHED = "yowsup/stacks/__init__.py"
+
+
+def composition_problems(repo):
+    """-> (problems, n_checked).  problems: (relpath, function, lineno, construct, message).
+    (a) errors raised while evaluating the builder helpers for all 16 flag vectors (non-binding calls, in-place
+        extension of a module-level list); (b) published composition constants (yowsup/stacks/__init__.py) and builder
+        results in which one layer class occurs twice - a parallel group hands every stanza / entity to both instances,
+        so everything that layer answers is answered twice."""
+    import itertools
+    problems, seen, n = [], set(), 0
+    for vec in itertools.product([False, True], repeat=len(FLAGS)):
+        v, se = default_layers(repo, dict(zip(FLAGS, vec)))
+        n += 1
+        for stmt, msg in se.errors:
+            key = (getattr(stmt, "lineno", 0), msg)
+            if key not in seen:
+                seen.add(key)
+                problems.append((YS, "YowStackBuilder", getattr(stmt, "lineno", None), unparse(stmt)[:80], msg))
+        layers = flatten(v)
+        if layers:
+            flat = [c for x in layers for c in (x if isinstance(x, list) else [x])]
+            dup = sorted({c.name for c in flat if flat.count(c) > 1})
+            if dup and ("dup", tuple(dup)) not in seen:
+                seen.add(("dup", tuple(dup)))
+                problems.append((YS, "YowStackBuilder.getDefaultLayers", None, "flags %s" % "".join("1" if x else "0" for x in vec), "layer class(es) %s occur twice in the composition: everything they answer is answered twice" % ", ".join(dup)))
+    m = repo.module(PUBLISHED, required=False) if hasattr(repo, "module") else None
+    if m is not None:
+        se = StackEval(repo)
+        se.mod = m
+        for st in m.tree.body:
+            if isinstance(st, ast.Assign) and len(st.targets) == 1 and isinstance(st.targets[0], ast.Name) and st.targets[0].id.startswith("YOWSUP_"):
+                v = se.ev(st.value, {}, 0)
+                n += 1
+                if v[0] != "tuple":
+                    continue
+
+                def flat_classes(val):
+                    out = []
+                    for x in val[1]:
+                        if x[0] == "cls":
+                            out.append(x[1])
+                        elif x[0] in ("tuple", "par", "list"):
+                            out += flat_classes(x)
+                    return out
+                cl = flat_classes(v)
+                dup = sorted({c.name for c in cl if cl.count(c) > 1})
+                if dup:
+                    problems.append((PUBLISHED, "", st.lineno, st.targets[0].id, "published composition %s contains %s twice: a stack built from it hands every stanza to both instances, so each answers (two acks / receipts / deliveries)" % (st.targets[0].id, ", ".join(dup))))
+    return problems, n
